@@ -46,9 +46,11 @@ Inductive ekey := EPrimary (b : bool) | EForeign (pkg ent : str).
 Record entity_key := EK { ek_type : option ekey; ek_tenant : option str }.
 
 (* the enum a field refers to, as declared in the same j5s file:
-   effective value-name prefix and the option names in order (numbers 1..n;
-   number 0 is the implicit <prefix>UNSPECIFIED) *)
-Record enum_env := EE { ee_prefix : str; ee_options : list str }.
+   effective value-name prefix, the explicit first option standing for value 0
+   (a first option whose name ends in UNSPECIFIED; None: value 0 is the implicit
+   <prefix>UNSPECIFIED, which no rule can name) and the other option names in
+   order (numbers 1..n) *)
+Record enum_env := EE { ee_prefix : str; ee_zero : option str; ee_options : list str }.
 
 Inductive fty :=
 | TInt (k : ikind) (r : option int_rules) (l : option lpay)
